@@ -1,5 +1,5 @@
 /-!
-# The statements of `Action.finish`, as data (extractor E14)
+# The statements of `Action.finish`, `Action._start` and `Action.log`, as data (extractor E14)
 
 `lean/Eliot/Generated/Finish.lean` lists, in source order, what `Action.finish` does to the dictionary it writes: one `W` per
 statement.  `Properties/C03Fin.lean` gives each `W` its meaning in the core model and proves that `World.finishRec` is exactly
@@ -18,6 +18,11 @@ inductive W where
   | identification               -- fields.update(self._identification)   ({task_uuid, action_type}, in that order)
   | taskLevel                    -- fields[TASK_LEVEL_FIELD] = self._nextTaskLevel().as_list()
   | write                        -- self._logger.write(fields, serializer)
+  | taskUuid                     -- fields[TASK_UUID_FIELD] = self._identification[TASK_UUID_FIELD]     (Action.log)
+  | messageType                  -- fields[MESSAGE_TYPE_FIELD] = message_type                           (Action.log)
+  | popLogger                    -- logger = fields.pop("__eliot_logger__", self._logger)               (Action.log)
+  | writePop                     -- logger.write(fields, fields.pop("__eliot_serializer__", None))      (Action.log)
+  | serializerStart              -- if self._serializers is None: serializer = None else: serializer = self._serializers.start
   | other (src : String)         -- anything else: nothing provable
 deriving DecidableEq, Repr
 
